@@ -268,10 +268,11 @@ def repo_builds_normally():
 DRIVER = os.path.join(LEAN, '.lake', 'build', 'bin', 'cudrv')
 
 
-def run_chunk(exe, text, keep_trace=False, timeout=1200):
+def run_chunk(exe, text, keep_trace=False, timeout=1200, alarm=None):
     """harness | driver on one chunk of scenario text. Returns (res_lines, stats, trace_text)."""
     try:
-        h = subprocess.run([exe], input=text, capture_output=True, text=True, timeout=timeout)
+        env = dict(os.environ, VERIF_ALARM=str(alarm)) if alarm else None
+        h = subprocess.run([exe], input=text, capture_output=True, text=True, timeout=timeout, env=env)
     except subprocess.TimeoutExpired:
         raise FrameworkError('harness timed out')
     trace = h.stdout
@@ -326,6 +327,19 @@ def run_scenarios(exe, scenarios, jobs=NCPU):
             r = parse_res(line)
             results[r['id']] = r
         stats = merge_stats(stats, st)
+    # a scenario that hit the 20 s wall-clock guard (or was skipped after two such hits in its chunk) is run again on
+    # its own with a much longer guard before it counts as a hang: the guard measures wall-clock time, and a loaded
+    # machine must not turn into a reported non-termination
+    byid = {s_.split()[1]: s_ for s_ in scenarios}
+    again = [sid for sid, r in results.items() if r['end'] in ('hang', 'skipped')] + [sid for sid in byid if sid not in results]
+    for sid in again[:12]:
+        if sid not in byid:
+            continue
+        res, st, _ = run_chunk(exe, byid[sid] + '\n', alarm=150)
+        for line in res:
+            r = parse_res(line)
+            if r['id'] == sid:
+                results[sid] = r
     return results, stats
 
 
